@@ -15,6 +15,9 @@ import MsVerif.Driver.OpsCompile
 import MsVerif.Driver.OpsTypeExec
 import MsVerif.Driver.OpsDisplay
 import MsVerif.Driver.OpsDecode
+import MsVerif.Driver.OpsCmp
+import MsVerif.Driver.OpsInterp
+import MsVerif.Driver.OpsMalle
 
 namespace MsVerif.Driver
 
@@ -83,7 +86,16 @@ def step (st : DState) (line : String) : DState × String :=
                                   | none =>
                                     match opsDecode st.tables kind op args with
                                     | some r => (st, r)
-                                    | none => (st, "bad-op")
+                                    | none =>
+                                      match opsCmp st.tables kind op args with
+                                      | some r => (st, r)
+                                      | none =>
+                                        match opsInterp st.tables kind op args with
+                                        | some r => (st, r)
+                                        | none =>
+                                          match opsMalle st.tables kind op args with
+                                          | some r => (st, r)
+                                          | none => (st, "bad-op")
   | _ => (st, "bad-op")
 
 end MsVerif.Driver
